@@ -69,8 +69,11 @@ ALL.update(HOSTILE)
 ALL.update(TAILS)
 
 
+CFG = [{}]            # configuration of the agent the next deliver() builds (task_cfg switches it)
+
+
 def establish(state='ESTABLISHED'):
-    w = W.AgentWorld({})
+    w = W.AgentWorld(CFG[0])
     for ev in (('TICK', 0), ('CONN_OK', 0), ('RX', 0, M['OPEN_OK'])):
         w.step(ev)
     if state == 'ESTABLISHED':
@@ -330,6 +333,74 @@ def task_axis(args):
     return v, nd, classes, len(items)
 
 
+def task_burst(args):
+    """many messages in one read: N well-formed messages delivered as one chunk, as two halves, in 4096-octet reads and one
+    message per read - every message reported exactly once, in order, whatever the read sizes"""
+    v = []
+    nd = 0
+    classes = set()
+    for n in args:
+        frames = [VALID['UPD'] if i % 3 else VALID['KA'] for i in range(n)]
+        stream = b''.join(frames)
+        want = tuple(CB_OF[f[18]] for f in frames)
+        bounds = list(itertools.accumulate(len(f) for f in frames))
+        segs = {'whole': (), 'two-halves': (bounds[n // 2 - 1],), '4096-octet-reads': tuple(range(4096, len(stream), 4096)),
+                'one-message-per-read': tuple(bounds[:-1])}
+        base = None
+        for kind, cuts in segs.items():
+            out, over, excs = deliver(stream, cuts)
+            nd += 1
+            names = tuple(c[0] for c in out[0] if c[0] != 'on_established')
+            classes.add(('burst', n, kind, names == want))
+            if over:
+                v.append(('C04|c|dataReceived exceeded its work budget|burst of %d messages' % n, {'burst': n, 'kind': kind, 'steps': over[1]}))
+            if excs:
+                v.append(('C04|exception escaped dataReceived|burst of %d messages' % n, {'burst': n, 'kind': kind, 'exc': excs}))
+            if names != want or out[1] or out[2]:
+                v.append(('C04|b|a burst of well-formed messages is not reported message by message (%s)' % kind,
+                          {'burst': n, 'kind': kind, 'reported': len(names), 'expected': len(want), 'writes': out[1], 'closed': out[2]}))
+            if base is None:
+                base = out
+            elif out != base:
+                v.append(('C04|a|outcome depends on segmentation|burst of well-formed messages', {'burst': n, 'kind': kind}))
+    return v, nd, classes, len(args)
+
+
+CAP_CFGS = [{'route_refresh': False, 'cisco_route_refresh': False, 'enhanced_route_refresh': False, 'graceful_restart': False},
+            {'cisco_route_refresh': False}, {'afi_safi': ['ipv4', 'ipv6', 'flowspec']}]
+# (four_bytes_as is not in the list: it changes what an UPDATE *body* means, which is not a framing matter)
+
+
+def task_cfg(args):
+    """framing does not depend on which capabilities are configured: every single valid frame of every known type, with a sentinel
+    KEEPALIVE behind it, under capability-poor configurations - extracted frames and reaction as under the default one"""
+    v = []
+    nd = 0
+    classes = set()
+    frames = dict(VALID)
+    frames['RR128'] = wire.frame(wire.CISCO_RR, b'\x00\x01\x00\x01')
+    del frames['UPD300']
+    base = {}
+    try:
+        for ci, cfg in enumerate([{}] + CAP_CFGS):
+            CFG[0] = cfg
+            for name, f in sorted(frames.items()):
+                stream = f + wire.keepalive()
+                for cuts in ((), (19,), (len(f),)):
+                    out, over, excs = deliver(stream, tuple(c for c in cuts if 0 < c < len(stream)))
+                    nd += 1
+                    obs = (tuple(c[0] for c in out[0]), out[1], out[2], out[3])
+                    if ci == 0:
+                        base[(name, cuts)] = obs
+                    elif obs != base[(name, cuts)]:
+                        v.append(('C04|b|the reaction to a well-framed %s depends on the configured capabilities' % name,
+                                  {'cfg': cfg, 'frame': name, 'cuts': cuts, 'default': base[(name, cuts)], 'now': obs}))
+                    classes.add(('cfg', ci, name, obs[1], obs[2]))
+    finally:
+        CFG[0] = {}
+    return v, nd, classes, len(frames) * (1 + len(CAP_CFGS))
+
+
 def run(tier, seed):
     tm = report.Timer()
     col = report.Collector(PROP)
@@ -361,6 +432,9 @@ def run(tier, seed):
     titems = [(ty, L) for ty in range(256) for L in (19, 23)]
     for i in range(0, len(titems), 64):
         tasks.append(('t', ('type', titems[i:i + 64])))
+    for n in ((257, 300), (1001, 1100), (2400,)) if tier == 'quick' else ((257, 300, 511), (1001, 1100), (2400,), (5000,)):
+        tasks.append(('b', n))
+    tasks.append(('c', None))
     results = explore.pmap(_dispatch, tasks, chunk=1)
     explore.close_pool()
     nd = ns = 0
@@ -377,10 +451,10 @@ def run(tier, seed):
         'rule': 'streams = all sequences of <= %d frames over a pool of %d valid + %d framing-hostile frames (+ %d truncated tails as last '
                 'element); each delivered whole, byte-at-a-time, with every 1-cut and (streams of <= 2 frames) every 2-cut to a freshly '
                 'established real session; plus the axes every length value (%d values x 6 types) and every type octet (256 x 2 lengths) '
-                'with a sentinel KEEPALIVE behind; distinct_nontrivial = distinct (stream class, number of distinct outcomes) / axis classes'
+                'with a sentinel KEEPALIVE behind; bursts of 257..2400 well-formed messages in one read / two halves / 4096-octet reads / one per read; every valid frame type under 3 capability-poor configurations against the default one; distinct_nontrivial = distinct (stream class, number of distinct outcomes) / axis classes'
                 % (3, len(VALID), len(HOSTILE), len(TAILS), len(lens)),
         'samples': [({'stream': '+'.join(report.pick(t[1][0], seed, 1)[0]), 'cut_families': 'whole, bytewise, all 1-cuts' + (', all 2-cuts' if t[1][1] >= 2 else ''), 'state': t[1][2]}
-                     if t[0] == 's' else {'axis': t[1][0], 'type_and_length': report.pick(t[1][1], seed, 1)[0]}) for t in report.pick(tasks, seed, 4)],
+                     if t[0] == 's' else {'axis': t[1][0], 'type_and_length': report.pick(t[1][1], seed, 1)[0]}) for t in report.pick([x for x in tasks if x[0] in ('s', 'l', 't')], seed, 4)],
         'streams': ns, 'deliveries': nd, 'length_values': len(lens),
         'exhaustive': tier == 'thorough', 'caps': [] if tier == 'thorough' else ['2-cuts only for streams whose first frame does not end the session', 'length axis sampled: every 257th value + all near 0/19/4096/65535', '3-frame streams: one fifth (rotates with VERIF_SEED), 1-cuts only'],
         'violation_keys': summary,
@@ -393,6 +467,10 @@ def _dispatch(t):
     kind, args = t
     if kind == 's':
         return task_streams(args)
+    if kind == 'b':
+        return task_burst(args)
+    if kind == 'c':
+        return task_cfg(args)
     return task_axis(args)
 
 
@@ -415,6 +493,14 @@ def replay(path):
         print('cuts %s:' % (cuts,), [c[0] for c in b[0][0]], b[0][1:4], b[1], b[2])
         print('reference:', reference(names))
         v, _, _ = check_stream(names, 2)
+        return 1 if d['key'] in [k for k, _ in v] else 0
+    elif 'burst' in w:
+        v, _, _, _ = report.fresh(task_burst, (w['burst'],))
+        print(v[:3])
+        return 1 if d['key'] in [k for k, _ in v] else 0
+    elif 'cfg' in w:
+        v, _, _, _ = report.fresh(task_cfg, None)
+        print(v[:3])
         return 1 if d['key'] in [k for k, _ in v] else 0
     else:
         v, _, _, _ = task_axis(('length', [(w['type'], w['length'])]))
